@@ -291,6 +291,41 @@ def ModesSeparated (evs : List Event) : Bool :=
     | .fileCreate _ g => g.contains .modeFilter
     | .statusCheck _ => true
 
+/-- the command lines of the exporter and the importer as audited (pipes.rs): `-C <dir> [-c core.quotepath=false] fast-export
+    <refs> --show-original-ids --signed-tags=strip --tag-of-filtered-object=rewrite --fake-missing-tagger
+    --reference-excluded-parents --use-done-feature [--date-order] [--no-data] [--reencode=yes] [--mark-tags]` and
+    `-C <dir> -c core.ignorecase=false fast-import --force --quiet [--date-format=raw-permissive] [--export-marks=…]`;
+    bracketed arguments are conditional. In particular `-c core.ignorecase=false`, `--signed-tags=strip`,
+    `--tag-of-filtered-object=rewrite`, `--reference-excluded-parents`, `--use-done-feature` and `--force` are unconditional:
+    the lossless-round-trip flags C08 depends on. -/
+def auditedPipeArgs : List (GitSub × Nat × Bool) := [
+  (.fastExport, 563017056725247521, false),
+  (.fastExport, 0, false),
+  (.fastExport, 563052241097350273, true),
+  (.fastExport, 1095181065749840465, true),
+  (.fastExport, 8899676618760483276, false),
+  (.fastExport, 0, false),
+  (.fastExport, 2401071089810171193, false),
+  (.fastExport, 415698966522135484, false),
+  (.fastExport, 1840488085719189176, false),
+  (.fastExport, 7224606453764782508, false),
+  (.fastExport, 3488403198777759109, false),
+  (.fastExport, 7229820994539515742, false),
+  (.fastExport, 6744727413496977418, true),
+  (.fastExport, 17853181588088743459, true),
+  (.fastExport, 6214456026475610782, true),
+  (.fastExport, 7844197791862974000, true),
+  (.fastImport, 563017056725247521, false),
+  (.fastImport, 0, false),
+  (.fastImport, 563052241097350273, false),
+  (.fastImport, 399270763116178444, false),
+  (.fastImport, 6093001213137532907, false),
+  (.fastImport, 13269889027536395738, false),
+  (.fastImport, 12331210239215360541, false),
+  (.fastImport, 2332082143619196690, true),
+  (.fastImport, 0, true)
+]
+
 def constOf (cs : List (ConstName × Nat)) (n : ConstName) : Option Nat := (cs.find? fun c => c.1 == n).map (·.2)
 
 /-- the built-in secret patterns of detect.rs as audited when the end-to-end planting generators were written (one
